@@ -71,6 +71,7 @@ def check(run):
         run.guard("C03.5.domain-hashing", cfg, lambda: rule_domains(run, F, cfg))
         run.guard("C03.6.scheme-patterns", cfg, lambda: rule_scheme_patterns(run, F, cfg))
         run.guard("C03.7.option-split", cfg, lambda: rule_option_split(run, F, cfg))
+        run.guard("C03.8.implicit-types", cfg, lambda: rule_implicit_types(run, F, cfg))
         b = run.borrow("C05", only=r"field:(mask|opt_domains|opt_not_domains)\b|key:",
                        why="rules whose options differ must not be fused into one")
         run.guard("C03.via.C05.1.fusion-key", cfg, lambda: _C05.rule_key(b, F, cfg))
@@ -433,3 +434,112 @@ def rule_option_split(run, F, cfg):
     bar = seps.get("'|'", [])
     run.ob("C03.7.option-split", "domains-by-bar", len(bar) >= 1 and all(k == "split" for k, a, l in bar),
            f"domain / method values are split at every '|' ({[(k) for k, a, l in bar]})", config=cfg)
+
+
+# The request-type arithmetic at the end of NetworkFilter::parse, as (operator, operand, conditions). The
+# table is the specification (uBO semantics as implemented by the reference tree, confirmed by reading):
+#   - positive types are added as given;
+#   - a negated network type implies "all network types" first (not for removeparam rules);
+#   - no positive type at all means all network types; for removeparam rules: document, subdocument, xhr;
+#   - a bare `||hostname^` rule without any type option also covers documents (implicit document rule);
+#   - finally the negated types are removed, after everything that adds types.
+_POS_EMPTY = ("is_empty(bitand($cpt_mask_positive, FROM_ALL_TYPES))", 1)
+_NEG_EMPTY = ("is_empty(bitand($cpt_mask_negative, FROM_ALL_TYPES))", 1)
+IMPLICIT_TYPES = [
+    ("|=", "$cpt_mask_positive", frozenset()),
+    ("|=", "FROM_NETWORK_TYPES", frozenset({("contains($mask, IS_REMOVEPARAM)", 0),
+                                            ("ne(bitand($cpt_mask_negative, FROM_NETWORK_TYPES), NONE)", 1)})),
+    ("|=", "FROM_DOCUMENT|FROM_SUBDOCUMENT|FROM_XMLHTTPREQUEST",
+     frozenset({_POS_EMPTY, ("contains($mask, IS_REMOVEPARAM)", 1)})),
+    ("|=", "FROM_NETWORK_TYPES", frozenset({_POS_EMPTY, ("contains($mask, IS_REMOVEPARAM)", 0)})),
+    ("|=", "FROM_ALL_TYPES", frozenset({_POS_EMPTY, _NEG_EMPTY, ("contains($mask, IS_HOSTNAME_ANCHOR)", 1),
+                                        ("contains($mask, IS_RIGHT_ANCHOR)", 1), ("$end_url_anchor", 0),
+                                        ("contains($mask, IS_REMOVEPARAM)", 0)})),
+    ("&=", "not($cpt_mask_negative)", frozenset()),
+]
+
+
+def _short_mask_expr(e):
+    e = re.sub(r"filters::network::NetworkFilterMask::", "", e)
+    e = re.sub(r"filters::network::_::", "", e)
+    e = re.sub(r"std::cmp::PartialEq::", "", e)
+    return e
+
+
+def _flatten_or(e):
+    """bitor(bitor(A, B), C) -> A|B|C (sorted)"""
+    m = re.match(r"^bitor\((.*)\)$", e)
+    if not m:
+        return e
+    depth = 0
+    inner = m.group(1)
+    for i, ch in enumerate(inner):
+        if ch == "(":
+            depth += 1
+        elif ch == ")":
+            depth -= 1
+        elif ch == "," and depth == 0:
+            a, b = inner[:i], inner[i + 1:].strip()
+            parts = _flatten_or(a).split("|") + _flatten_or(b).split("|")
+            return "|".join(sorted(parts))
+    return e
+
+
+def rule_implicit_types(run, F, cfg):
+    f = F.fn(NF + "parse") if "NF" in globals() else F.fn("filters::network::NetworkFilter::parse")
+    run.touched(f)
+    rows = []
+    sites = {}
+    for b, t in f.calls(r"bitor_assign$|bitand_assign$|bitxor_assign$|sub_assign$|::(remove|insert|toggle)$"):
+        if f.vexpr_operand(t["args"][0]) != "$mask":
+            continue
+        arg = _flatten_or(_short_mask_expr(f.vexpr_operand(t["args"][1])))
+        if not re.search(r"FROM_|cpt_mask", arg):
+            continue
+        op = {"bitor_assign": "|=", "bitand_assign": "&=", "insert": "|="}.get(t["callee"].rsplit("::", 1)[-1],
+                                                                              t["callee"].rsplit("::", 1)[-1])
+        conds = set()
+        for k, v in dominating_conditions(f, b, render=f.vexpr_operand).items():
+            if k.startswith("discr("):
+                continue   # `?` exits and matches on the option variant
+            conds.add((_short_mask_expr(k), v))
+        row = (op, arg, frozenset(conds))
+        rows.append(row)
+        sites[row] = (b, f.loc(b))
+    run.floor("C03.8.implicit-types", f"type-mask updates after the option loop [{cfg}]", len(rows), 6)
+    want = list(IMPLICIT_TYPES)
+    for row in rows:
+        ok = row in want
+        if ok:
+            want.remove(row)
+        run.ob("C03.8.implicit-types", f"{row[0]} {row[1]} if {sorted(row[2])}", ok,
+               f"NetworkFilter::parse: `mask {row[0]} {row[1]}` under {sorted(row[2]) or 'no condition'} "
+               + ("is a row of the implicit-type table" if ok else "is NOT a row of the implicit-type table (see "
+                  "IMPLICIT_TYPES in rules/C03.py: wrong operand, wrong polarity or a missing / extra guard)"),
+               site=sites[row][1], config=cfg)
+    for row in want:
+        run.ob("C03.8.implicit-types", f"missing: {row[0]} {row[1]} if {sorted(row[2])}", False,
+               f"NetworkFilter::parse no longer performs `mask {row[0]} {row[1]}` under {sorted(row[2]) or 'no condition'}",
+               site=f.loc(0), config=cfg)
+    # negated types are removed last: no type-adding update is reachable from the `&= !negative`
+    last = [sites[r][0] for r in rows if r[0] == "&="]
+    adders = [sites[r][0] for r in rows if r[0] == "|="]
+    ok_last = len(last) == 1 and not (set(adders) & set(f.reachable_from(last[0])) - {last[0]})
+    run.ob("C03.8.implicit-types", "negated-types-removed-last", ok_last,
+           "`mask &= !cpt_mask_negative` is executed after every update that adds request types (exclusions win)",
+           site=f.loc(last[0]) if last else f.loc(0), config=cfg)
+    # the conditions read the final option state: no option-loop write of the flags they test is reachable
+    # from the first implicit update
+    first = min(adders) if adders else None
+    late = []
+    if first is not None:
+        after = set(f.reachable_from(first))
+        for b, t in f.calls(r"::set$|bitor_assign$"):
+            if b in after and b not in set(sites[r][0] for r in rows):
+                tgt = f.vexpr_operand(t["args"][0])
+                arg = _short_mask_expr(f.vexpr_operand(t["args"][1]))
+                if tgt in ("$cpt_mask_positive", "$cpt_mask_negative") or (tgt == "$mask" and "IS_REMOVEPARAM" in arg):
+                    late.append((tgt, arg, f.loc(b)))
+    run.ob("C03.8.implicit-types", "conditions-read-final-option-state", not late,
+           f"the positive / negative type masks and IS_REMOVEPARAM are not written after the implicit-type "
+           f"arithmetic has started ({late[:2]})", config=cfg)
